@@ -212,13 +212,15 @@ def order_case(rng, path=None):
     n = len(ka)
     j = rng.randrange(n)
     fb = rng.random() < 0.2
-    head = f"conn ka={ka} cap={rng.choice([1, 1, 2])}" + (f" fb={j}:1" if fb else "")
-    name = f"{j}.f1" if fb and rng.random() < 0.7 else f"{j}"
-    ops = [head, f"pause {j}", f"fill {j}"]
     style = rng.choice(["same", "same", "split"])
     if path in ("remote_close", "remote_goaway", "idle") and rng.random() < 0.7:
         style = "split"
-    outbound = style == "split" and rng.random() < 0.3
+    outbound = style == "split" and rng.random() < 0.35
+    # an outbound request is answered with the substream (`Oo<id>`) or, by a remote that refuses, with a failure (`X<id>`)
+    pol = " remote=refuse" if outbound and rng.random() < 0.5 else ""
+    head = f"conn ka={ka} cap={rng.choice([1, 1, 2])}" + (f" fb={j}:1" if fb else "") + pol
+    name = f"{j}.f1" if fb and rng.random() < 0.7 else f"{j}"
+    ops = [head, f"pause {j}", f"fill {j}"]
     if style == "split":
         ops += [f"local_open {j}", "run", "run"] if outbound else [f"remote_open {name} full", "run"]
         if rng.random() < 0.3:
